@@ -30,7 +30,7 @@ def check(prog, rep):
     # hand to an operation on another bucket, whose id assignment / edits would then show in this bucket too)
     from ..rules_own import own_rules
 
-    own_rules(prog, rep, methods=["insert_one", "insert_many", "replace", "replace_last"])
+    own_rules(prog, rep, methods=["insert_one", "insert_many", "replace", "replace_last", "create_bucket", "update_bucket"])
 
 
 SQ = "aw_datastore/storages/sqlite.py"
